@@ -327,8 +327,11 @@ def s_eager_globals(_ctx):
     from contracts.c17_opsets import Agg
     agg = Agg()
     cl = "C14: 'Script-time constants are fixed when the decorator runs: mutating globals afterwards changes neither the generated protos nor later calls'"
-    src = ("from onnxscript import script, FLOAT\nfrom onnxscript import opset18 as op\nALPHA = 2.0\n"
-           "@script(default_opset=op)\ndef f(x: FLOAT[2]) -> FLOAT[2]:\n    return x * ALPHA\n")
+    src = ("from onnxscript import script, FLOAT\nfrom onnxscript import opset18 as op\nALPHA = 2.0\nSCALE = 2.0\n"
+           "@script(default_opset=op)\ndef f(x: FLOAT[2]) -> FLOAT[2]:\n    return x * ALPHA\n"
+           "def factory():\n    SCALE = 10.0\n    @script(default_opset=op)\n    def inner(x: FLOAT[2]) -> FLOAT[2]:\n        return x * SCALE\n    return inner\n"
+           "inner = factory()\n"
+           "@script(default_opset=op)\ndef target(x: FLOAT[2]) -> FLOAT[2]:\n    return x * SCALE\n")
     import os
     import tempfile
     import importlib.util
@@ -340,6 +343,14 @@ def s_eager_globals(_ctx):
         mod = importlib.util.module_from_spec(spec)
         sys.modules["eager_glob_case"] = mod
         spec.loader.exec_module(mod)
+        import onnx
+        def consts(m):
+            return [onnx.numpy_helper.to_array(nd.attribute[0].t).tolist() for nd in m.graph.node if nd.op_type == "Constant" and nd.attribute[0].HasField("t")]
+        c_inner, c_target = consts(mod.inner.to_model_proto()), consts(mod.target.to_model_proto())
+        agg.ob("C14.script.decoration_does_not_write_the_module_namespace", mod.SCALE == 2.0 and c_target == [2.0] and c_inner == [10.0],
+               f"a script decorated inside a factory whose local SCALE = 10.0 shadows the module global SCALE = 2.0: afterwards the module global is "
+               f"{mod.SCALE!r}, a later script using the module global was translated with {c_target} (the factory's script with {c_inner})",
+               "C14: 'regardless of which other scripts ... were handled earlier in the same process by the same decorator'", case="closure variable shadowing a module global")
         fn = mod.f.function
         live = fn.__globals__ is mod.__dict__
         agg.ob("C14.eager.executed_function_reads_globals_from_a_decoration_time_snapshot", not live,
